@@ -240,6 +240,25 @@ func c16Check(entry string, x ap.Item) (ds []keyed, flatCount int) {
 						}
 					}
 				}
+				strict := false
+				for _, an := range c16ActivityItems {
+					strict = strict || an == f.Name
+				}
+				if strict {
+					// actor, object, target, result, origin and instrument hold one item; when one of them holds a list the statement's
+					// "stay as they were" is read literally: the list comes back member for member, each member as it was or flattened to
+					// its own id - no member dropped, none unwrapped (the library leaves such lists alone)
+					al, isList := ai.(ap.ItemCollection)
+					ok := isList && len(al) == len(bl)
+					for i := 0; ok && i < len(bl); i++ {
+						ok = c16SameItem(bl[i], al[i]) || c16SameItem(c16FlatOne(bl[i]), al[i])
+					}
+					if !ok {
+						ds = append(ds, keyed{fmt.Sprintf("flatten %s %s %s", entry, f.Name, shape),
+							fmt.Sprintf("%s.%s: the list %s came back as %s (expected member for member, as it was or flattened to its id)", gt, f.Name, vocab.Dump(bi), vocab.Dump(ai))})
+					}
+					continue
+				}
 				if !c16SameItemPos(full, ai) && !c16SameItemPos(dedup, ai) {
 					ds = append(ds, keyed{fmt.Sprintf("flatten %s %s %s", entry, f.Name, shape),
 						fmt.Sprintf("%s.%s: %s flattened to %s, reference %s", gt, f.Name, vocab.Dump(bi), vocab.Dump(ai), vocab.Dump(c16Normalize(full)))})
@@ -353,14 +372,18 @@ func c16Shapes(c *vocab.Counter) []vocab.Shaped {
 		mk("typeless-idless", &ap.Object{Name: ap.DefaultNaturalLanguageValue("#tag")}),
 		mk("link", &ap.Link{Type: ap.MentionType, Href: c.ID("h")}),
 		mk("link-id", &ap.Link{ID: c.ID("l"), Type: ap.LinkType, Href: c.ID("h")}),
+		// lists in positions that usually hold one item
+		mk("list-dup-iris", ap.ItemCollection{ap.IRI("https://example.com/dup/a"), ap.IRI("https://example.com/dup/b"), ap.IRI("https://example.com/dup/a")}),
+		mk("list1-idless", ap.ItemCollection{&ap.Object{Type: ap.NoteType, Name: ap.DefaultNaturalLanguageValue("only member")}}),
+		mk("list-obj-iri", ap.ItemCollection{&ap.Object{ID: c.ID("lo"), Type: ap.NoteType}, c.ID("li")}),
 	}
 }
 
 func TestC16(t *testing.T) {
 	r := ev.Open(t, "C16")
 	defer r.Close(t)
-	r.Rule("positions: every flattened position (actor, object, target, result, origin, instrument, replies, likes, shares, attributedTo) x 10 shapes (IRI, objects of several types with id in pointer and " +
-		"value form, id-less objects, links with and without id) through FlattenProperties and the typed helpers; lists: all lists of length <= 4 over {IRI a, object a, object b, id-less object, nil, a followers collection with members, an empty collection with id} in " +
+	r.Rule("positions: every flattened position (actor, object, target, result, origin, instrument, replies, likes, shares, attributedTo) x 13 shapes (IRI, objects of several types with id in pointer and " +
+		"value form, id-less objects, links with and without id, lists with a repeated IRI / one id-less member / an object and an IRI) through FlattenProperties and the typed helpers; lists: all lists of length <= 4 over {IRI a, object a, object b, id-less object, nil, a followers collection with members, an empty collection with id} in " +
 		"every addressee property and in attributedTo; random: random values with decoys at positions that must not be flattened. Oracle: deep copy with exactly the embedded non-collection objects that " +
 		"have an id replaced by IRI(id) (repeated mentions in lists may or may not be dropped), every other property bit-identical, no IRI in the result that was not in the original, flatten twice == once. " +
 		"non-trivial = at least one embedded object with id in a flattened position; distinct by entry point + canonical dump")
